@@ -906,38 +906,118 @@ func rawXML(r *Run, innerToo bool) {
 		if !hasBytesParam || !returnsBytes {
 			continue
 		}
-		idx := 0
+		// …and the text-to-text helpers it hands the part's text to (the scan-and-rebuild loop moved
+		// into a function of its own)
+		scan := []*ssa.Function{top}
 		allInstrs(top, func(in ssa.Instruction) {
-			c, ok := in.(*ssa.Call)
-			if !ok || len(c.Call.Args) < 2 {
-				return
-			}
-			switch calleeName(c) {
-			case "(*strings.Builder).WriteString", "(*bytes.Buffer).WriteString", "(*bytes.Buffer).Write", "(*strings.Builder).Write":
-			default:
-				return
-			}
-			v := c.Call.Args[1]
-			inserts := false
-			for x := range newSlicer(p).Slice(v).Vals {
-				if cc, ok := x.(*ssa.Call); ok && conv[staticCallee(cc)] {
-					inserts = true
+			if c, ok := in.(*ssa.Call); ok {
+				if g := staticCallee(c); g != nil && g != top && p.inModule(g) && g.Parent() == nil && isStringType(c.Type()) && len(g.Blocks) > 0 {
+					for _, a := range c.Call.Args {
+						if isStringType(a.Type()) {
+							scan = append(scan, g)
+							break
+						}
+					}
 				}
 			}
-			if !inserts {
-				return
-			}
-			n++
-			idx++
-			san := false
-			name := "?"
-			if cc, ok := stripConv(v).(*ssa.Call); ok {
-				san = isXMLSanitiser(p, staticCallee(cc))
-				name = calleeName(cc)
-			}
-			r.Check("raw-xml", fmt.Sprintf("%s:value#%d", shortName(top), idx), c.Pos(), san,
-				fmt.Sprintf("%s writes a data value into the raw XML text it rebuilds; the value passes through %s, which is not an encoding/xml escaper: characters that are not legal in XML survive and make the part ill-formed", shortName(top), name))
 		})
+		idx := 0
+		for _, sf := range scan {
+			allInstrs(sf, func(in ssa.Instruction) {
+				c, ok := in.(*ssa.Call)
+				if !ok || len(c.Call.Args) < 2 {
+					return
+				}
+				switch calleeName(c) {
+				case "(*strings.Builder).WriteString", "(*bytes.Buffer).WriteString", "(*bytes.Buffer).Write", "(*strings.Builder).Write":
+				case "encoding/xml.EscapeText":
+					// the value is written through the escaper itself
+					for x := range newSlicer(p).Slice(c.Call.Args[1]).Vals {
+						if cc, ok := x.(*ssa.Call); ok && conv[staticCallee(cc)] {
+							n++
+							idx++
+							r.Check("raw-xml", fmt.Sprintf("%s:value#%d", shortName(top), idx), c.Pos(), true,
+								fmt.Sprintf("%s writes a data value into the raw XML text it rebuilds through encoding/xml.EscapeText", shortName(top)))
+							break
+						}
+					}
+					return
+				default:
+					// a module helper that is handed the builder and the value: an escaping writer?
+					h := staticCallee(c)
+					if h == nil || !p.inModule(h) || len(h.Blocks) == 0 {
+						return
+					}
+					wi, vi := -1, -1
+					for i, a := range c.Call.Args {
+						t := a.Type()
+						if pt, ok := t.(*types.Pointer); ok {
+							if nt, ok := pt.Elem().(*types.Named); ok && nt.Obj().Pkg() != nil && (nt.Obj().Pkg().Path() == "strings" && nt.Obj().Name() == "Builder" || nt.Obj().Pkg().Path() == "bytes" && nt.Obj().Name() == "Buffer") {
+								wi = i
+							}
+						}
+						if isStringType(t) {
+							vi = i
+						}
+					}
+					if wi < 0 || vi < 0 {
+						return
+					}
+					inserts := false
+					for x := range newSlicer(p).Slice(c.Call.Args[vi]).Vals {
+						if cc, ok := x.(*ssa.Call); ok && conv[staticCallee(cc)] {
+							inserts = true
+						}
+					}
+					if !inserts {
+						return
+					}
+					// every write of h into its writer parameter goes through xml.EscapeText
+					esc, raw := false, false
+					allInstrs(h, func(in2 ssa.Instruction) {
+						c2, ok := in2.(*ssa.Call)
+						if !ok {
+							return
+						}
+						switch calleeName(c2) {
+						case "encoding/xml.EscapeText":
+							esc = true
+						case "(*strings.Builder).WriteString", "(*bytes.Buffer).WriteString", "(*bytes.Buffer).Write", "(*strings.Builder).Write", "(*strings.Builder).WriteByte", "(*strings.Builder).WriteRune":
+							if len(c2.Call.Args) > 1 {
+								if _, isC := c2.Call.Args[1].(*ssa.Const); !isC {
+									raw = true
+								}
+							}
+						}
+					})
+					n++
+					idx++
+					r.Check("raw-xml", fmt.Sprintf("%s:value#%d", shortName(top), idx), c.Pos(), esc && !raw,
+						fmt.Sprintf("%s writes a data value into the raw XML text it rebuilds through %s: %s", shortName(top), shortName(h), map[bool]string{true: "which writes it through encoding/xml.EscapeText only", false: "which does not (only) write it through encoding/xml.EscapeText: characters that are not legal in XML survive and make the part ill-formed"}[esc && !raw]))
+					return
+				}
+				v := c.Call.Args[1]
+				inserts := false
+				for x := range newSlicer(p).Slice(v).Vals {
+					if cc, ok := x.(*ssa.Call); ok && conv[staticCallee(cc)] {
+						inserts = true
+					}
+				}
+				if !inserts {
+					return
+				}
+				n++
+				idx++
+				san := false
+				name := "?"
+				if cc, ok := stripConv(v).(*ssa.Call); ok {
+					san = isXMLSanitiser(p, staticCallee(cc))
+					name = calleeName(cc)
+				}
+				r.Check("raw-xml", fmt.Sprintf("%s:value#%d", shortName(top), idx), c.Pos(), san,
+					fmt.Sprintf("%s writes a data value into the raw XML text it rebuilds; the value passes through %s, which is not an encoding/xml escaper: characters that are not legal in XML survive and make the part ill-formed", shortName(top), name))
+			})
+		}
 	}
 	// (1b) the substitution may be delegated: a function that handles raw XML bytes hands the text to
 	//      a module helper whose ReplaceAllStringFunc closure inserts data values without escaping.
